@@ -17,7 +17,7 @@ for p in ALL:
         c = CLAIMED[p]
         checks.append(dict(property_id=p, quick_cmd=f"./check {p} --tier quick", thorough_cmd=f"./check {p} --tier thorough",
                            evidence_file=f"evidence/{p}.json", replay_cmd_template=f"./check {p} --replay {{path}}",
-                           engine="lean4-model", level_claimed=dict(category="proof", text=c["text"], design_ref=c.get("design", "")),
+                           engine="lean4-model", level_claimed=dict(category=c.get("category", "proof"), text=c["text"], design_ref=c.get("design", "")),
                            level_note=c["note"], technique=c["technique"]))
 m = dict(version=1,
          setup_cmd="cd lean && lake build",
